@@ -1,12 +1,26 @@
 (* C04 - correspondence driver: evaluates the model on the exact-rational instance and compares with
    what the implementation produced for the same inputs.  Verdicts only (see Common/Out.v). *)
-From Coq Require Import QArith List ZArith Bool.
+From Coq Require Import QArith List ZArith Bool Floats.
 Require Import Kawin.Common.Ops Kawin.Common.Vec Kawin.Common.Out Kawin.C04.Model.
 Import ListNotations.
 Open Scope Q_scope.
 
 Notation qvec := (list Q).
 Notation qmat := (list (list Q)).
+
+(* Transport of binary64 inputs: the harness writes every float as a hexadecimal float literal (exact, and
+   parsed natively - decimal Q literals cost milliseconds each); its exact rational value is recovered here
+   from the kernel's decomposition of the primitive float.  Non-finite values never reach the model. *)
+Definition f2q (f : float) : Q :=
+  match Prim2SF f with
+  | S754_finite s m e =>
+      let z := if s then Zneg m else Zpos m in
+      if (0 <=? e)%Z then inject_Z (z * 2 ^ e) else Qred (z # (2 ^ Z.to_pos (- e)))
+  | _ => 0
+  end.
+Definition fv (l : list float) : qvec := map f2q l.
+Definition fm (l : list (list float)) : qmat := map (map f2q) l.
+Definition fms (l : list (list (list float))) : list qmat := map fm l.
 
 Definition mkbcQ (lt : bool) (lv : Q) (rt : bool) (rv : Q) : bc Qops :=
   mkbc Qops (if lt then FluxBC else CompBC) lv (if rt then FluxBC else CompBC) rv.
@@ -24,11 +38,13 @@ Fixpoint cmpm_go (rt : Q) (e : nat) (impl model scale : qmat) : option (nat * (n
   end.
 Definition cmpm (rt : Q) (impl model scale : qmat) := cmpm_go rt 0 impl model scale.
 Definition mabs (A : qmat) : qmat := map (map qabs) A.
-Definition madd (A B : qmat) : qmat := zipWith (zipWith Qplus) A B.
-Definition mscale (c : Q) (A : qmat) : qmat := map (map (Qmult c)) A.
+Definition qadd (a b : Q) : Q := Qred (a + b).
+Definition qmul (a b : Q) : Q := Qred (a * b).
+Definition madd (A B : qmat) : qmat := zipWith (zipWith qadd) A B.
+Definition mscale (c : Q) (A : qmat) : qmat := map (map (qmul c)) A.
 
 (* |J_k| + |J_k+1| per node, from a face array *)
-Definition facemag (J : qvec) : qvec := zipWith Qplus (map qabs (tail_ J)) (map qabs (init_ J)).
+Definition facemag (J : qvec) : qvec := zipWith qadd (map qabs (tail_ J)) (map qabs (init_ J)).
 
 (* ---- one solver step -------------------------------------------------------------------------------------- *)
 (* stages: interior face fluxes the implementation's _getFluxes returned in each stage (1 for Euler, 4 for RK4)
@@ -38,7 +54,7 @@ Definition const_oracle (J : qmat) : oracle Qops := fun _ => J.
 
 Definition check_step (rt : Q) (bcs : list (bc Qops)) (dz minc dt : Q) (x0 : qmat) (stages : list qmat)
            (impl_stage_x : list qmat) (impl_pre impl_post : qmat) :=
-  let adz := qabs (dt / dz) in
+  let adz := Qred (qabs (dt / dz)) in
   let mag := fold_right (fun J acc => madd acc (map facemag (fluxes_of Qops bcs J)))
                         (map (map (fun _ => 0)) x0) stages in
   let scale := madd (mabs x0) (mscale adz mag) in
@@ -65,7 +81,7 @@ Definition check_step (rt : Q) (bcs : list (bc Qops)) (dz minc dt : Q) (x0 : qma
 Definition check_dxdt (rt : Q) (bcs : list (bc Qops)) (dz : Q) (Jint : qmat) (impl_fluxes impl_dxdt : qmat) :=
   let fl := fluxes_of Qops bcs Jint in
   (cmpm 0 impl_fluxes fl (mabs fl),
-   cmpm rt impl_dxdt (dXdt_of Qops dz fl) (mscale (qabs (1 / dz)) (map facemag fl))).
+   cmpm rt impl_dxdt (dXdt_of Qops dz fl) (mscale (Qred (qabs (1 / dz))) (map facemag fl))).
 
 (* applyBoundaryConditionsToFluxes on an arbitrary array: exact *)
 Definition check_applybc (bcs : list (bc Qops)) (J impl : qmat) :=
@@ -89,19 +105,25 @@ Definition check_sp_multi (rt : Q) (bcs : list (bc Qops)) (dz : Q) (D : list qma
 
 (* ---- HomogenizationModel._getFluxes ------------------------------------------------------------------------------ *)
 (* scale: the same pipeline with every added term replaced by its magnitude *)
+(* |u_i| + |u_i+1| over |dz|: the rounding error of a computed difference is relative to its operands *)
+Fixpoint pairmag (l : qvec) : qvec :=
+  match l with
+  | a :: ((b :: _) as r) => qadd (qabs a) (qabs b) :: pairmag r
+  | _ => []
+  end.
 Definition hom_row_abs (dz eps Rgas : Q) (Tmid M m ur : qvec) : qvec :=
   let avgU := mids Qops ur in
-  let dmu := grad Qops dz m in
-  let du := grad Qops dz ur in
-  zipWith Qplus
-    (zipWith (fun Mk g => qabs (Mk * g)) M dmu)
-    (zip4 (fun Mk Tm g a => if Qeq_bool a 0 then 0 else qabs (eps * Mk * Rgas * Tm * g / a)) M Tmid du avgU).
+  let dmu := map (fun v => Qred (v / qabs dz)) (pairmag m) in
+  let du := map (fun v => Qred (v / qabs dz)) (pairmag ur) in
+  zipWith qadd
+    (zipWith (fun Mk g => qabs (qmul Mk g)) M dmu)
+    (zip4 (fun Mk Tm g a => if Qeq_bool a 0 then 0 else qabs (Qred (qmul (qmul (qmul (qmul eps Mk) Rgas) Tm) g / a))) M Tmid du avgU).
 Definition hom_scale (dz eps Rgas : Q) (subst : list bool) (Mface mu : qmat) (Tn : qvec) (x : qmat) : qmat :=
   let n := length Tn in
   let u := u_frac Qops n subst (x_full Qops n x) in
   let Fa := map3 (hom_row_abs dz eps Rgas (mid2 Qops Tn)) Mface mu u in
   let S := colsum Qops (n - 1) (pick subst Fa) in
-  tl (zipWith (fun Fk uk => zipWith Qplus Fk (zipWith (fun a b => qabs (a * b)) uk S)) Fa (map (mids Qops) u)).
+  tl (zipWith (fun Fk uk => zipWith qadd Fk (zipWith (fun a b => qabs (qmul a b)) uk S)) Fa (map (mids Qops) u)).
 
 Definition check_hom (rt : Q) (bcs : list (bc Qops)) (dz eps Rgas : Q) (subst : list bool) (Mface mu : qmat)
            (Tn : qvec) (x : qmat) (impl : qmat) :=
@@ -109,6 +131,10 @@ Definition check_hom (rt : Q) (bcs : list (bc Qops)) (dz eps Rgas : Q) (subst : 
   let sc := fluxes_of Qops (map (fun b => mkbc Qops (ltype Qops b) (qabs (lval Qops b)) (rtype Qops b) (qabs (rval Qops b))) bcs)
                       (hom_scale dz eps Rgas subst Mface mu Tn x) in
   (cmpm rt impl fl sc,
+   (* ill-conditioned: a face u-fraction below 1/1000 divides the ideal term; 1 - sum(x) is rounded relative to 1 *)
+   negb (Qeq_bool eps 0) &&
+   existsb (existsb (fun a => Qle_bool (qabs a) (1 # 1000)))
+           (map (mids Qops) (u_frac Qops (length Tn) subst (x_full Qops (length Tn) x))),
    (* the frame identity on this very input: substitutional frame fluxes (reference included) cancel *)
    let n := length Tn in
    let u := u_frac Qops n subst (x_full Qops n x) in
@@ -120,7 +146,7 @@ Definition check_hom (rt : Q) (bcs : list (bc Qops)) (dz eps Rgas : Q) (subst : 
 Definition check_setup (rt : Q) (bcs : list (bc Qops)) (nAll : Z) (minc : Q) (built impl1 impl2 : qmat) :=
   let s1 := setup Qops bcs nAll minc (mkst Qops false built) in
   let s2 := setup Qops bcs nAll minc s1 in
-  let sc := map (map (fun v => qabs v + inject_Z nAll * qabs minc)) built in
+  let sc := zipWith (fun b row => map (fun v => Qred (qabs v + inject_Z nAll * qabs minc + qabs (lval Qops b) + qabs (rval Qops b))) row) bcs built in
   (cmpm rt impl1 (xs Qops s1) sc, cmpm rt impl2 (xs Qops s2) sc).
 
 (* postProcess on an arbitrary array (the implementation rounds 1 - min to binary64) *)
